@@ -19,6 +19,7 @@ __TAPKEE_IMPLEMENTATION(LinearLocalTangentSpaceAlignment)
     void validate()
     {
         parameters[target_dimension].checked().satisfies(InRange<IndexType>(1, current_dimension + 1)).orThrow();
+        parameters[target_dimension].checked().satisfies(InRange<IndexType>(1, static_cast<IndexType>(parameters[num_neighbors]) + 1)).orThrow();
     }
 
     TapkeeOutput embed()
